@@ -22,20 +22,21 @@ static bool THOROUGH = false;
 static const size_t DISTINCT_CAP = 300000;
 static std::map<string, uint64_t> g_cnt;
 
-// owned bits of the current configuration, discovered black-box for the sub-byte kinds
+// owned bits of the current configuration
 static uint8_t g_owned[4] = {0xff, 0xff, 0xff, 0xff};
 
 static bool subByteKind(Kind k) { return k == rc::K_BITS || k == rc::K_TRUNC || k == rc::K_TEM; }
 
+// owned bits come from the type definition; the black-box discovery (bits ever set when every decodable value is
+// written onto an empty buffer) must stay inside them
 static void discoverOwned(const Cfg& c) {
-  for (int i = 0; i < 4; i++) g_owned[i] = 0xff;
   const TypeSpec& t = *c.fs.t;
+  for (int i = 0; i < 4; i++) g_owned[i] = 0xff;
   if (!subByteKind(t.kind)) return;
-  for (int i = 0; i < 4; i++) g_owned[i] = 0;
-  // owned bits = bits that ever get set when every decodable value is written onto an empty buffer
+  rc::ownedMask(c.fs, t.bytes, g_owned);
   unsigned total = t.bytes == 1 ? 256 : 65536;
   string nullText = rc::nullTextOf(c.fs);
-  uint8_t b[2];
+  uint8_t b[2], seen[2] = {0, 0};
   string text;
   vector<uint8_t> enc;
   for (unsigned v = 0; v < total; v++) {
@@ -43,7 +44,14 @@ static void discoverOwned(const Cfg& c) {
     if (I.decode(c, b, t.bytes, F_TEXT, &text) != 0) continue;
     if (text == nullText) continue;  // the replacement pattern is not a value of the field's domain
     if (I.encode(c, text, &enc) != 0) continue;
-    for (size_t i = 0; i < enc.size() && i < 4; i++) g_owned[i] |= enc[i];
+    for (size_t i = 0; i < enc.size() && i < 2; i++) {
+      if ((enc[i] & ~g_owned[i]) != 0 && (seen[i] & enc[i] & ~g_owned[i]) == 0 && E.P.part == 0) {
+        R.violation("C06/writes-unowned-bits/" + string(t.name) + "/valid",
+                    "def " + c.fs.typeText() + " text '" + text + "' encodes to " + hexOf(enc.data(), enc.size()) +
+                    " outside the field's bits " + hexOf(g_owned, t.bytes), "k=own;" + c.key() + ";raw=" + hexOf(b, t.bytes));
+      }
+      seen[i] |= enc[i];
+    }
   }
 }
 
@@ -464,6 +472,21 @@ static int replay(const string& cs) {
     return ok ? 0 : 1;
   }
   if (c.field == nullptr) { printf("configuration not creatable: %s\n", c.createErr.c_str()); return 2; }
+  if (k == "own") {
+    uint8_t mask[4];
+    vector<uint8_t> raw = bytesOf(m["raw"]), enc;
+    rc::ownedMask(c.fs, c.fs.t->bytes, mask);
+    string text;
+    int r1 = I.decode(c, raw.data(), static_cast<int>(raw.size()), F_TEXT, &text);
+    int r2 = r1 == 0 ? I.encode(c, text, &enc) : -1;
+    bool bad = false;
+    for (size_t i = 0; r2 == 0 && i < enc.size() && i < raw.size(); i++) bad |= (enc[i] & ~mask[i]) != 0;
+    printf("def %s raw=%s decode result=%d text='%s' encode result=%d bytes=%s field bits=%s\n", c.fs.typeText().c_str(),
+           hexOf(raw.data(), raw.size()).c_str(), r1, printable(text).c_str(), r2, hexOf(enc.data(), enc.size()).c_str(),
+           hexOf(mask, raw.size()).c_str());
+    printf(bad ? "VIOLATES\n" : "OK\n");
+    return bad ? 1 : 0;
+  }
   string rule;
   if (k == "txt") {
     vector<uint8_t> tx = bytesOf(m["tx"]);
